@@ -176,3 +176,28 @@ def run_history(history):
         done.append(name)
         del r
     return done
+
+
+def make_order(final_strategy, final_exec, describe):
+    """(cases strategy, execute) of an `order` sub-check: history from the menu, then the property's own case; the final case's
+    failures keep their signatures, the message names the history"""
+    from vlib.core import isolated
+
+    @st.composite
+    def cases(draw):
+        return {"history": [list(h) for h in draw(histories)], "final": draw(final_strategy)}
+
+    def _exec(case):
+        done = run_history(case["history"])
+        out = final_exec(case["final"])
+        # same signatures as the property's own sub-check (a recorded finding stays the recorded finding); the message names the history
+        out.failures = [(s, f"{m} [after the history {' -> '.join(done) or '(empty)'}]") for s, m in out.failures]
+        out.nontrivial = bool(out.nontrivial) and len(done) > 0
+        out.fingerprint = [sorted(set(done)), describe(case["final"])]
+        out.klass = [f"pre-{n}" for n in set(done)] + [f"history-len{len(done)}"]
+        return out
+
+    def execute(case):
+        return isolated(_exec)(case)
+
+    return cases(), execute
